@@ -118,6 +118,7 @@ void ProtoRun::filter_record(Record &r, std::vector<Bytes> &out) {
         uint32_t suite = snd.alive() ? snd.negotiated_suite() : 0;
         if (prot && suite && !suite_is_aead((uint16_t) suite) && !suite_is_tls13((uint16_t) suite) && r.type != 20) { audit.on_wire_cbc_record(snd.ssl, r.raw.data() + r.hdr, r.body_len(), pc.dtls()); }
         if (r.type == 20) { ccs_emitted[dir] = true; }
+        if (pc.dtls() && r.epoch > 0 && snd.alive()) { audit.on_wire_dtls_record(snd.ssl, r.epoch, r.seq, r.raw.data(), r.raw.size()); }
     }
     Armed &a = armed[dir];
     if (captured_reset) { have_held[0] = have_held[1] = false; captured_reset = false; }
@@ -648,6 +649,10 @@ void ProtoRun::do_op(const Op &op) {
     } else if (op.k == "close") {
         MxEndpoint &e = w.ep(dir);
         if (e.alive()) { e.app_close(); after_event(); w.collect(DIR_C2S); w.collect(DIR_S2C); }
+    } else if (op.k == "hreq") {
+        // the server asks for renegotiation; a client built without it answers with a no_renegotiation WARNING and the connection goes on
+        MxEndpoint &e = *w.srv;
+        if (e.alive() && e.is_complete() && !suite_is_tls13((uint16_t) e.negotiated_suite())) { if (e.hello_request() >= 0) { obs.counters["probe.hello_request_sent"]++; } after_event(); w.collect(DIR_C2S); w.collect(DIR_S2C); }
     } else if (op.k == "timer") {
         // DTLS application resend timer fires on one endpoint (alive or dead): with an empty output buffer the library rebuilds its last flight
         MxEndpoint &e = w.ep(dir);
